@@ -350,14 +350,18 @@ pub fn run(cases: &[Value], trace: &mut Trace, seed: u64) {
                     break;
                 }
             }
-            let _ = t.join();
+            // a call that never returns even after its socket was shut down (e.g. a self-deadlock) must not take the
+            // harness with it: the thread is left behind and the call is recorded as hung
+            if !hang || out.is_some() || t.is_finished() {
+                let _ = t.join();
+            }
             let (_, leftover) = split_messages(&chunks_all);
             let fd_first = wire.iter().all(|m| m["fd_first"].as_bool().unwrap_or(true));
             close_chunk_fds(&chunks_all);
             let stray_in = fionread(fe.as_raw_fd());
             let (res, ret, args, fdids, lent_ok) = match out {
                 Some(o) => (o.res, o.ret, o.args, o.fdids, o.lent_ok),
-                None => ("panic".to_string(), json!({}), json!({}), vec![], true),
+                None => ((if hang { "stuck" } else { "panic" }).to_string(), json!({}), json!({}), vec![], true),
             };
             let dead = (behaviour != "auto" && behaviour != "seg") || hang;
             trace.emit(json!({"ev": "call", "op": op, "cls": cls, "v": bits(v), "rv": bits(rv), "peer": behaviour,
